@@ -1,6 +1,10 @@
-SPECIFICATION Spec
-CONSTANTS Configs <- MCConfigs
+INIT MCInitCounts
+NEXT Next
+CONSTANTS Configs = {}
   CountBasedCheck = TRUE
+  SkipEpochWithoutRow = FALSE
+  LoadEveryEngine = FALSE
+  LoadOnlyOwnTargets = FALSE
 INVARIANT ImportFaithful
 INVARIANT NoStaleState
 INVARIANT ObsReachFilter
